@@ -1,6 +1,6 @@
 """C03: evaluate()/ISLaSolver.check() on closed trees vs the reference semantics R2."""
 import json, random
-from islamon.ref.grammar import G, nodes, lab, kids, to_list, is_nt
+from islamon.ref.grammar import G, nodes, lab, kids, to_list, is_nt, tstr
 from islamon.ref import semantics as R2
 from islamon.gen import grammars as GG
 from islamon.gen.formulas import FGen, unused_quantified_vars, uses
@@ -16,7 +16,7 @@ SPEC = {
             "verdict == R2 verdict, never UNKNOWN without numeric quantifier, never an exception; ISLaSolver.check(tree) on a "
             "slice. distinct = distinct (grammar, formula skeleton, tree-size bucket, verdict)",
     "minimum": {"quick": {"judged": 1500, "distinct": 600, "verdict_true": 250, "verdict_false": 250, "strategy_legacy": 800,
-                          "strategy_qe": 80, "with_match_expression": 150, "wide_trees": 15, "via_check": 100},
+                          "strategy_qe": 80, "with_match_expression": 150, "wide_trees": 15, "via_check": 100, "arith_cases": 100},
                 "thorough": {"judged": 40000, "distinct": 8000, "strategy_qe": 2000, "with_match_expression": 4000}},
     "assumptions": ["R2 (islamon/ref/semantics.py): transcription of the 'Semantics' section of islaspec.rst; abstains on ambiguous "
                     "match-expression bindings, undocumented predicate arguments (consecutive on non-leaves) and Z3-undecided atoms",
@@ -162,10 +162,37 @@ def gen_case(ctx, rng):
     return gname, g, f, trees
 
 
+def arith_case(ctx, rng):
+    """integer arithmetic atoms over numeral subtrees (div / mod / * / - with negative intermediate values), with the
+    right-hand side aimed at the value one numeral of the tree actually yields, so that TRUE and FALSE both occur"""
+    gname = rng.choice(["numeral", "padnum", "leftrec", "expr"])
+    g = GG.FEATURE[gname]
+    m = G(g)
+    gen = FGen(g, rng, m)
+    if not gen.numeral_nts:
+        return gen_case(ctx, rng)
+    nt = rng.choice(gen.numeral_nts)
+    trees = [m.random_tree(rng, budget=rng.choice([3, 8, 15, 30])) for _ in range(3)]
+    vals = [int(tstr(n)) for t in trees for _, n in nodes(t) if lab(n) == nt and kids(n) is not None and tstr(n).isdigit()] or [0]
+    n = rng.choice(vals)
+    op, k1, k2 = rng.choice(["div", "div", "mod", "*"]), rng.choice([0, 1, 5, 10, 50, 200, n + 1, n + 7]), rng.choice([2, 3, 7])
+    val = {"div": (n - k1) // k2, "mod": (n - k1) % k2, "*": (n - k1) * k2}[op]     # k2 > 0: floor division is SMT-LIB div
+    rhs = val + rng.choice([0, 0, 0, 1, -1])
+    lit = str(rhs) if rhs >= 0 else f"(- 0 {-rhs})"
+    atom = ("smt", f"({rng.choice(['=', '=', '<=', '>'])} ({op} (- (str.to.int x) {k1}) {k2}) {lit})", ["x"])
+    if rng.random() < 0.3:
+        atom = ("not", atom)
+    f = (rng.choice(["forall", "exists"]), nt, "x", "start", None, atom)
+    if rng.random() < 0.25:
+        f = ("and", f, ("smt", "(>= (str.len start) 0)", ["start"]))
+    ctx.count("arith_cases")
+    return gname, g, f, trees
+
+
 def run(ctx):
     rng = ctx.rng
     while ctx.running():
-        gname, g, f, trees = gen_case(ctx, rng)
+        gname, g, f, trees = arith_case(ctx, rng) if rng.random() < 0.06 else gen_case(ctx, rng)
         for t in trees:
             if len(list(nodes(t))) > 160:
                 continue
